@@ -1049,7 +1049,7 @@ def round_trips(ctx, cases, used, spec, minimise=True, sequences=(), alone=False
     seq_at = len(jobs)
     jobs += [sequence_job(q, node_attrs) for q in sequences]
     # (a history run on its own gets a process of its own)
-    res1 = genrun.run_many(ctx.tmp / ("r1a" if alone else "r1"), jobs, timeout=90, **({"workers": max(1, len(jobs))} if alone else {}))
+    res1 = genrun.run_many(ctx.tmp / ("r1a" if alone else "r1"), jobs, timeout=90, fresh_process=alone)
     # round 2: the dependant with @extern
     jobs2, idx2 = [], []
     for k, c in enumerate(cases):
